@@ -20,7 +20,7 @@ ReadSet::~ReadSet() {
 
 
 void ReadSet::add(Read* read) {
-	name_and_source_id_t name_and_source_id = name_and_source_id_t(read->getName(), read->getSourceID());
+	name_and_source_id_t name_and_source_id = name_and_source_id_t(read->getName(), read->getSourceID(), read->getSampleID());
 	if (read_name_map.find(name_and_source_id) != read_name_map.end()) {
 		throw std::runtime_error("ReadSet::add: duplicate read name.");
 	}
@@ -46,7 +46,7 @@ void ReadSet::sort() {
 	// Update read_name_map
 	read_name_map.clear();
 	for (size_t i=0; i<reads.size(); ++i) {
-		read_name_map[name_and_source_id_t(reads[i]->getName(), reads[i]->getSourceID())] = i;
+		read_name_map[name_and_source_id_t(reads[i]->getName(), reads[i]->getSourceID(), reads[i]->getSampleID())] = i;
 	}
 }
 
@@ -73,12 +73,13 @@ Read* ReadSet::get(int i) const {
 
 
 Read* ReadSet::getByName(std::string name, int source_id) const {
-	read_name_map_t::const_iterator it = read_name_map.find(name_and_source_id_t(name,source_id));
-	if (it == read_name_map.end()) {
-		return 0;
-	} else {
-		return reads[it->second];
+	// the first read of that name from that source (whatever its sample)
+	for (size_t i=0; i<reads.size(); ++i) {
+		if ((reads[i]->getSourceID() == source_id) && (reads[i]->getName().compare(name) == 0)) {
+			return reads[i];
+		}
 	}
+	return 0;
 }
 
 
